@@ -113,8 +113,9 @@ func c06Resp(k int) *adminservice.StreamWorkflowReplicationMessagesResponse {
 	return &adminservice.StreamWorkflowReplicationMessagesResponse{
 		Attributes: &adminservice.StreamWorkflowReplicationMessagesResponse_Messages{
 			Messages: &replicationv1.WorkflowReplicationMessages{
-				ReplicationTasks:       []*replicationv1.ReplicationTask{{SourceTaskId: int64(100 + k)}},
-				ExclusiveHighWatermark: int64(101 + k),
+				// contents are arbitrary (symbolic): the relay must not look at them
+				ReplicationTasks:       []*replicationv1.ReplicationTask{{SourceTaskId: verifNondetInt64("task-id")}},
+				ExclusiveHighWatermark: verifNondetInt64("high-watermark"),
 			},
 		},
 	}
@@ -123,7 +124,8 @@ func c06Resp(k int) *adminservice.StreamWorkflowReplicationMessagesResponse {
 func c06Req(k int) *adminservice.StreamWorkflowReplicationMessagesRequest {
 	return &adminservice.StreamWorkflowReplicationMessagesRequest{
 		Attributes: &adminservice.StreamWorkflowReplicationMessagesRequest_SyncReplicationState{
-			SyncReplicationState: &replicationv1.SyncReplicationState{InclusiveLowWatermark: int64(50 + k)},
+			// arbitrary (symbolic) watermark: successive sync states may repeat a value
+			SyncReplicationState: &replicationv1.SyncReplicationState{InclusiveLowWatermark: verifNondetInt64("low-watermark")},
 		},
 	}
 }
